@@ -269,7 +269,7 @@ WITNESSES = [
      "old": "                    del self.trie[bucket.prefix_id]\n", "new": ""},
     {"name": "split drops unplaceable nodes silently into b_0", "file": RT, "rule": "split-partition",
      "old": "            if b_0.owns(node.id):\n                b_0.add(node)\n            elif b_1.owns(node.id):\n                b_1.add(node)",
-     "new": "            if b_1.owns(node.id):\n                b_1.add(node)\n            else:\n                b_0.add(node)"},
+     "new": "            if b_1.owns(node.id):\n                b_1.add(node)\n            elif True:\n                b_0.add(node)"},
     {"name": "closest sorted by status first", "file": RT, "rule": "closest",
      "old": "key=lambda n: (distance(n.id, node_id), n.status)", "new": "key=lambda n: (n.status, distance(n.id, node_id))"},
     {"name": "closest walk stops early", "file": RT, "rule": "closest",
